@@ -3,7 +3,7 @@ from lib.coqgen import N, Z, b, hx, opt, lst, height
 
 NAME = "tmstore"
 GO_PKG = "./tmstore"
-COQ_IMPORTS = "From IBC Require Import Lib.Bytes Lib.Dec Lib.CorrLib Core.Height Corr.TmStore."
+COQ_IMPORTS = "From IBC Require Import Lib.Bytes Lib.Dec Lib.CorrLib Core.Height TmStore.KV TmStore.Store TmStore.Client Corr.TmStore."
 CASE_TYPE = "Case"
 CHECK = "check"
 
@@ -55,33 +55,34 @@ def Nx(x):
     return "%d" % x if x < 1000 else "0x%x" % x
 
 class Memo:
-    """per-record dictionary: numerals, heights, byte strings, consensus states and store entries repeat in every
-    observation of a history; each distinct one becomes one let-bound variable (literals are the expensive
-    part of type-checking the generated file)"""
+    """per-record literal tables: numerals, heights, byte strings, consensus states and store entries repeat in
+    every observation of a history; each distinct one is written once into a table (tn, tb, th, tc, te) and
+    referred to by position (literals are the expensive part of type-checking the generated file)"""
     def __init__(self):
-        self.names = {}
-        self.defs = []
-    def name(self, prefix, term):
-        n = self.names.get(term)
-        if n is None:
-            n = "%s%d" % (prefix, len(self.defs))
-            self.names[term] = n
-            self.defs.append((n, term))
-        return n
+        self.tabs = {k: ({}, []) for k in ("n", "b", "h", "c", "e")}
+    def idx(self, tab, term):
+        d, l = self.tabs[tab]
+        i = d.get(term)
+        if i is None:
+            i = len(l); d[term] = i; l.append(term)
+        return "%d%%nat" % i
     def wrap(self, body):
-        return "(" + "".join("let %s := %s in\n  " % d for d in self.defs) + body + ")"
+        t = self.tabs
+        return ("(let tn : list N := %s in\n  let tb : list bytes := %s in\n  let th : list Height := %s in\n"
+                "  let tc : list ConsState := %s in\n  let te : TmStore := %s in\n  %s)" % (
+                    lst(t["n"][1], str), lst(t["b"][1], str), lst(t["h"][1], str), lst(t["c"][1], str), lst(t["e"][1], str), body))
     # typed helpers
     def n(self, x):
         x = int(x)
-        return "%d" % x if x < 1000 else self.name("n", "0x%x" % x)
+        return "%d" % x if x < 1000 else "(gn tn %s)" % self.idx("n", "0x%x" % x)
     def z(self, x):
-        return self.name("z", "(zc %s)" % self.n(x))
+        return "(gz tn %s)" % self.idx("n", "0x%x" % int(x))
     def h(self, hh):
-        return self.name("h", "(mkH %s %s)" % (self.n(hh[0]), self.n(hh[1])))
+        return "(gh th %s)" % self.idx("h", "(mkH %s %s)" % (self.n(hh[0]), self.n(hh[1])))
     def hx(self, s):
-        return self.name("b", hx(s))
+        return "(gb tb %s)" % self.idx("b", hx(s))
     def cons(self, c):
-        return self.name("c", "(mkCons %s %s %s)" % (self.z(c[0]), self.hx(c[1]), self.hx(c[2])))
+        return "(gc tc %s)" % self.idx("c", "(mkCons %s %s %s)" % (self.z(c[0]), self.hx(c[1]), self.hx(c[2])))
     def client(self, c):
         return "(mkClient %s %s %s)" % (self.h(c[0]), b(c[1]), self.z(c[2]))
     def ctx(self, op):
@@ -93,7 +94,7 @@ class Memo:
             return "(VCons %s)" % self.cons(v[1:])
         return "(VRaw %s)" % self.hx(v[1])
     def entry(self, kv):
-        return self.name("e", "(%s, %s)" % (self.hx(kv[0]), self.val(kv[1])))
+        return "(ge te %s)" % self.idx("e", "(%s, %s)" % (self.hx(kv[0]), self.val(kv[1])))
     def probe(self, p):
         if p == "panic":
             return "None"
